@@ -379,7 +379,8 @@ func (h *Session) Parse(p []byte) (frame Frame, err error) {
 			return frame, err
 		}
 		// process echo reply to unblock ping if running
-		if icmpFrame.Type() == ICMP4TypeEchoReply && frame.offsetIP4 != 0 { // ICMP (protocol 1) belongs to IPv4
+		// ICMP (protocol 1) belongs to IPv4; the 8 byte echo header must lie inside the datagram (TotalLen)
+		if icmpFrame.Type() == ICMP4TypeEchoReply && frame.offsetIP4 != 0 && len(frame.IP4().Payload()) >= 8 {
 			echo := ICMPEcho(icmpFrame)
 			if err := echo.IsValid(); err != nil {
 				return frame, err
@@ -396,7 +397,8 @@ func (h *Session) Parse(p []byte) (frame Frame, err error) {
 			return frame, err
 		}
 		// process echo reply to unblock ping if running
-		if icmpFrame.Type() == ICMP6TypeEchoReply && frame.offsetIP6 != 0 { // ICMPv6 (protocol 58) belongs to IPv6
+		// ICMPv6 (protocol 58) belongs to IPv6; the 8 byte echo header must lie inside the packet (PayloadLen)
+		if icmpFrame.Type() == ICMP6TypeEchoReply && frame.offsetIP6 != 0 && len(frame.IP6().Payload()) >= 8 {
 			echo := ICMPEcho(icmpFrame)
 			if err := echo.IsValid(); err != nil {
 				return frame, err
